@@ -465,6 +465,14 @@ func (r *reader) parseMetadata(metaData simpleSection, repoMetaData simpleSectio
 		}
 	}
 
+	// JSON null decodes to a nil entry, which every user of the list would
+	// dereference.
+	for _, repo := range repos {
+		if repo == nil {
+			return nil, &md, fmt.Errorf("corrupt index: repository metadata has a null entry")
+		}
+	}
+
 	if md.ID == "" {
 		if len(repos) == 0 {
 			return nil, nil, ErrEmptyShard
@@ -510,6 +518,13 @@ func (d *indexData) verify() error {
 	// other sources of OOB access.
 	n := len(d.fileNameIndex)
 	if n == 0 {
+		// No file-name index at all: its section is missing (an unrecognised
+		// TOC tag is skipped). That is only consistent with a shard that has
+		// no documents; with any other table filled in, everything that
+		// indexes per document would run out of range.
+		if len(d.fileBranchMasks) != 0 || len(d.boundaries) > 1 || len(d.repos) != 0 {
+			return fmt.Errorf("corrupt index: no file name index, but %d branch masks, %d boundaries, %d document repositories", len(d.fileBranchMasks), len(d.boundaries), len(d.repos))
+		}
 		return nil
 	}
 
